@@ -1,6 +1,6 @@
 (* C14 (set half) — property theorems.  Only statements, [exact lemma] and Print Assumptions. *)
 From Coq Require Import NArith List Bool Sorting.Sorted.
-From FV Require Import C14.Model C14.Proofs C14.SetObs C14.SetAfter C14.SetRange.
+From FV Require Import C14.Model C14.Proofs C14.SetObs C14.SetAfter C14.SetDom C14.SetRangeU C14.SetEq C14.SetOrd C14.SetL0.
 Import ListNotations.
 Open Scope N_scope.
 
@@ -72,24 +72,100 @@ Theorem c14_inclusive_is_empty : forall dmax s f, Rep (Incl s) f -> wfi (Incl s)
   (is_is_empty dmax (Incl s) = true <-> forall v, f v = false).
 Proof. exact incl_is_empty_spec. Qed.
 
-(* len, both modes: there is a strictly ascending list of exactly the members (inclusive) / exactly the excluded
-   values (inverted) and len is its length, resp. count - its length.
-   PARTIAL for inverted sets: the full statement "len = number of members inside the domain" additionally needs
-   "every excluded value lies in [0,dmax]" (true when all operation arguments lie in the domain; not proved). *)
-Theorem c14_len_partial : forall dmax x f, Rep x f -> wfi x ->
-  exists l, StronglySorted N.lt l /\ (forall v, In v l <-> f v = negb (is_inverted x)) /\
-            is_len dmax x = if is_inverted x then dmax + 1 - N.of_nat (length l) else N.of_nat (length l).
-Proof. exact len_spec. Qed.
+(* ---- both membership modes, against the mathematical set restricted to the domain [0,dmax] ----
+   [members dmax f] (SetDom.v) = filter f [0; 1; ...; dmax] : the members of the domain in ascending order. *)
 
-(* RangeSet, BOUNDED (complete finite domain, by evaluation of the model): every insert sequence of length <= 3 over
-   all ranges with bounds in [0,5] (reversed ones included) yields a sorted, disjoint, non-adjacent list covering
-   exactly the union of the well-formed inserted ranges; every intersection of two such sets (length <= 2, bounds in
-   [0,3]) is canonical and covers exactly the pointwise meet.  The unbounded statements are not proved. *)
-Theorem c14_rangeset_canonical_bounded : forall ins, In ins (all_seqs 3 (all_ranges 5)) -> canon_ok 5 ins = true.
-Proof. exact rangeset_canonical_bounded_all. Qed.
-Theorem c14_rangeset_intersection_bounded : forall p,
-  In p (list_prod (all_seqs 2 (all_ranges 3)) (all_seqs 2 (all_ranges 3))) -> inter_ok 3 p = true.
-Proof. exact rangeset_intersection_bounded_all. Qed.
+(* the missing invariant of round 1: for EVERY operation sequence whose arguments lie in the domain, every value
+   stored in either bit set (= member of an inclusive set / excluded value of an inverted set) lies in [0,dmax] *)
+Theorem c14_domain_invariant : forall dmax ops, Forall (op_in_dom dmax) ops ->
+  indom dmax (fst (run ops)) /\ indom dmax (snd (run ops)).
+Proof. exact run_indom. Qed.
+
+(* forward / backward iteration (every prefix), inclusive AND inverted sets *)
+Theorem c14_iteration : forall dmax x f, Rep x f -> wfi x -> indom dmax x ->
+  forall k, is_iter dmax x k = firstn k (members dmax f).
+Proof. exact iter_spec. Qed.
+Theorem c14_iteration_backward : forall dmax x f, Rep x f -> wfi x -> indom dmax x ->
+  forall k, is_iter_back dmax x k = firstn k (rev (members dmax f)).
+Proof. exact iter_back_spec. Qed.
+(* iter_after(v): the members greater than v, ascending *)
+Theorem c14_iter_after : forall dmax x f, Rep x f -> wfi x -> indom dmax x ->
+  forall v k, is_iter_after dmax x v k = firstn k (filter (fun w => v <? w) (members dmax f)).
+Proof. exact iter_after_spec. Qed.
+(* first = least member of the domain, last = greatest, None iff no member *)
+Theorem c14_first_is_min : forall dmax x f, Rep x f -> wfi x -> indom dmax x ->
+  match is_first dmax x with
+  | Some m => m <= dmax /\ f m = true /\ forall v, v <= dmax -> f v = true -> m <= v
+  | None => forall v, v <= dmax -> f v = false
+  end.
+Proof. exact first_is_min. Qed.
+Theorem c14_last_is_max : forall dmax x f, Rep x f -> wfi x -> indom dmax x ->
+  match is_last dmax x with
+  | Some m => m <= dmax /\ f m = true /\ forall v, v <= dmax -> f v = true -> v <= m
+  | None => forall v, v <= dmax -> f v = false
+  end.
+Proof. exact last_is_max. Qed.
+(* len = the number of members of the domain (inverted sets: count - excluded), is_empty *)
+Theorem c14_len : forall dmax x f, Rep x f -> wfi x -> indom dmax x ->
+  is_len dmax x = N.of_nat (length (members dmax f)).
+Proof. exact len_full. Qed.
+Theorem c14_is_empty : forall dmax x f, Rep x f -> wfi x -> indom dmax x ->
+  (is_is_empty dmax x = true <-> forall v, v <= dmax -> f v = false).
+Proof. exact is_empty_full. Qed.
+
+(* iter_ranges / iter_excluded_ranges (both modes) = the maximal runs of members / non-members of the domain:
+   [runs l] = ranges_of l None; by c14_runs_are_maximal it is the unique sorted, disjoint, non-adjacent range list
+   covering exactly the members (uniqueness: SetEq.canon_ext) *)
+Theorem c14_runs_are_maximal : forall dmax f,
+  canon (runs (members dmax f)) /\ forall v, cov (runs (members dmax f)) v = (v <=? dmax) && f v.
+Proof. exact runs_members. Qed.
+Theorem c14_iter_ranges : forall dmax x f, Rep x f -> wfi x -> indom dmax x ->
+  is_iter_ranges dmax x = runs (members dmax f).
+Proof. exact iter_ranges_spec. Qed.
+Theorem c14_iter_excluded_ranges : forall dmax x f, Rep x f -> wfi x -> indom dmax x ->
+  is_iter_excluded_ranges dmax x = runs (members dmax (fun w => negb (f w))).
+Proof. exact iter_excluded_ranges_spec. Qed.
+(* intersects_range / intersects_set = non-emptiness of the meet *)
+Theorem c14_intersects_range : forall dmax x f, Rep x f -> wfi x -> indom dmax x -> forall a b,
+  is_intersects_range dmax x a b = existsb (fun v => (a <=? v) && (v <=? b)) (members dmax f).
+Proof. exact intersects_range_spec. Qed.
+Theorem c14_intersects_set : forall dmax x y f g, Rep x f -> wfi x -> indom dmax x -> Rep y g -> wfi y -> indom dmax y ->
+  (is_intersects_set dmax x y = true <-> exists v, v <= dmax /\ f v = true /\ g v = true).
+Proof. exact intersects_set_spec. Qed.
+(* eq_iff_members: PartialEq of the model (same-mode page comparison and mixed-mode len + ranges comparison)
+   holds exactly when the two sets have the same members in the domain *)
+Theorem c14_eq_iff_members : forall dmax x y f g, Rep x f -> wfi x -> indom dmax x -> Rep y g -> wfi y -> indom dmax y ->
+  (is_eqb dmax x y = true <-> forall v, v <= dmax -> f v = g v).
+Proof. exact eq_iff_members. Qed.
+
+(* ord_is_lex_on_members: Ord of the model (BitSet::cmp for Inclusive/Inclusive, the range-sequence comparison
+   otherwise) is the lexicographic order [lexc] of the ascending member sequences, a proper prefix being smaller *)
+Theorem c14_ord_is_lex_on_members : forall dmax x y f g, Rep x f -> wfi x -> indom dmax x -> Rep y g -> wfi y -> indom dmax y ->
+  is_cmp dmax x y = lexc (members dmax f) (members dmax g).
+Proof. exact ord_is_lex_on_members. Qed.
+
+(* L0 (SetL0.v): the in-place BitSet::process over (pages vector, page_map), index by index (step 1 estimate + left
+   compaction, compact, resize, step 3 back-to-front merge, step 4 drains).  BOUNDED (complete finite domain, by evaluation):
+   for every pair of L0 states over the majors {0,1,2} (all subsets, all index permutations, pages in {0,1,3}) and the four
+   operators, the abstraction of the in-place result is the L1 ordered merge and pages/page_map keep equal lengths. *)
+Theorem c14_process_L0_refines_L1_bounded :
+  forall a b, In a (states_over [0; 1; 2]) -> In b (states_over [0; 1; 2]) -> refines_on a b = true.
+Proof. exact process_L0_refines_L1_bounded_all. Qed.
+
+(* ---- RangeSet, UNBOUNDED (SetRangeU.v).  [canon l]: sorted by start, every range non-empty, every later range
+   starts beyond end + 1 of every earlier one (disjoint and non-adjacent); [cov l v]: v lies in some range of l
+   (for a list of inserted ranges: in some well-formed one; reversed ranges cover nothing and are ignored). ---- *)
+Theorem c14_rangeset_insert : forall l a b, canon l ->
+  canon (rs_insert l a b) /\ forall v, cov (rs_insert l a b) v = cov l v || inr (a, b) v.
+Proof. exact rs_insert_spec. Qed.
+(* rangeset_canonical: after ANY insert sequence (insert / extend / FromIterator) *)
+Theorem c14_rangeset_canonical : forall ins,
+  canon (rs_extend [] ins) /\ forall v, cov (rs_extend [] ins) v = cov ins v.
+Proof. exact rangeset_canonical_all. Qed.
+(* rangeset_intersection: the iterator yields the canonical form of the pointwise meet *)
+Theorem c14_rangeset_intersection : forall a b, canon a -> canon b ->
+  canon (rs_intersection a b) /\ forall v, cov (rs_intersection a b) v = cov a v && cov b v.
+Proof. exact rs_intersection_spec. Qed.
 
 Print Assumptions c14_intset_refines.
 Print Assumptions c14_step_refines.
@@ -101,7 +177,23 @@ Print Assumptions c14_inclusive_iteration.
 Print Assumptions c14_inclusive_first_is_min.
 Print Assumptions c14_inclusive_last_is_max.
 Print Assumptions c14_inclusive_is_empty.
-Print Assumptions c14_len_partial.
-Print Assumptions c14_rangeset_canonical_bounded.
-Print Assumptions c14_rangeset_intersection_bounded.
+Print Assumptions c14_rangeset_insert.
+Print Assumptions c14_rangeset_canonical.
+Print Assumptions c14_rangeset_intersection.
 Print Assumptions c14_inclusive_iter_after.
+Print Assumptions c14_domain_invariant.
+Print Assumptions c14_iteration.
+Print Assumptions c14_iteration_backward.
+Print Assumptions c14_iter_after.
+Print Assumptions c14_first_is_min.
+Print Assumptions c14_last_is_max.
+Print Assumptions c14_len.
+Print Assumptions c14_is_empty.
+Print Assumptions c14_runs_are_maximal.
+Print Assumptions c14_iter_ranges.
+Print Assumptions c14_iter_excluded_ranges.
+Print Assumptions c14_intersects_range.
+Print Assumptions c14_intersects_set.
+Print Assumptions c14_eq_iff_members.
+Print Assumptions c14_ord_is_lex_on_members.
+Print Assumptions c14_process_L0_refines_L1_bounded.
